@@ -134,8 +134,10 @@ impl<'a, P: for<'p> Protocol<'p>> DemoWriter<'a, P> {
         // Snap deltas always rely on the snap of the last tick in the demo.
         // They don't rely on the last keyframe.
         // For that, we always need to store the newest snap.
+        // The next snapshot has to number its extended (UUID) item types like
+        // the snapshot it is going to be diffed against.
+        self.builder = new_snap.clone().recycle();
         self.snap = new_snap;
-        self.builder = old_snap.recycle();
         self.buf.clear();
         self.last_tick = tick;
         if is_keyframe {
